@@ -273,6 +273,8 @@ func init() {
 				return ok()
 			case 10, 11, 12: // histories with refused writes (c01seq.go)
 				return c01History(getEnv, args)
+			case 13: // runs of a server over one shared-memory key: restarts on a left-over segment (c01shm.go)
+				return c01Restart(args)
 			}
 			return []string{"9"}
 		},
